@@ -151,15 +151,16 @@ class Multilocus:
     def selfing_operator(self, k):
         """S^k with S[(a,b),(g,h)] = K[a,b,g] K[a,b,h]: the exact k-generation selfing map on genotype
         distributions (one generation = two independent meioses of the same plant).  k = inf: the
-        limit, reached by repeated squaring (heterozygosity halves every generation)."""
+        limit, taken as S^128 by repeated squaring (heterozygosity halves every generation)."""
         op = self._sop.get(k)
         if op is None:
             H = self.H
             S = numpy.einsum("abg,abh->abgh", self.K, self.K).reshape(H * H, H * H)
             if k == INF:
                 op = S
-                for _ in range(12):                 # S^(2^12): far beyond double precision
+                for _ in range(7):                  # S^128: heterozygous mass <= m * 2^-128
                     op = op @ op
+                    op /= op.sum(1, keepdims=True)  # a stochastic matrix: remove the rounding drift of the row sums
                 hetcols = numpy.array([a != b for a in range(H) for b in range(H)])
                 assert op[:, hetcols].max() < 1e-15, "selfing chain did not become homozygous"
             else:
@@ -175,7 +176,8 @@ class Multilocus:
 
     def moments(self, g):
         """mean allele vector and covariance matrix of the DH line's alleles."""
-        assert abs(g.sum() - 1.0) < 1e-12
+        assert abs(g.sum() - 1.0) < 1e-10
+        g = g / g.sum()                     # rounding of the weights only; keeps a point mass a point mass
         mean = g @ self.X
         second = (self.X * g[:, None]).T @ self.X
         return mean, second - numpy.outer(mean, mean)
@@ -277,8 +279,9 @@ class PairOps:
             T = self.transition()
             if k == INF:
                 Tk = T
-                for _ in range(12):
+                for _ in range(7):                  # T^128
                     Tk = Tk @ Tk
+                    Tk /= Tk.sum(1, keepdims=True)
                 het = numpy.array([a != b for a, b in STATES2])
                 assert Tk[:, het].max() < 1e-15
             else:
@@ -294,10 +297,10 @@ def pair_chain(scheme, parents2, r, nself):
     Returns (E x_i, E x_j, cov(x_i, x_j)) of the DH line."""
     g = _pedigree(PairOps(r), scheme, parents2, nself)
     tot = sum(g.values())
-    assert abs(tot - 1.0) < 1e-12
-    ei = sum(p * h[0] for h, p in g.items())
-    ej = sum(p * h[1] for h, p in g.items())
-    eij = sum(p * h[0] * h[1] for h, p in g.items())
+    assert abs(tot - 1.0) < 1e-10
+    ei = sum(p * h[0] for h, p in g.items()) / tot
+    ej = sum(p * h[1] for h, p in g.items()) / tot
+    eij = sum(p * h[0] * h[1] for h, p in g.items()) / tot
     return ei, ej, eij - ei * ej
 
 
